@@ -10,6 +10,8 @@ package main
 //	//@ loop 1 invariant [k] <expr>
 //	//@ loop 1 decreases <expr>
 //	//@ inputsize <expr>
+//	//@ lemma [k] <expr>      (auxiliary fact at every return, may mention locals; proved, then
+//	//                         available to the lemmas and ensures clauses that follow it)
 //	//@ inline | trusted
 //
 // A clause may continue on following lines that start with "//@   " (three or
@@ -104,7 +106,7 @@ func parseContractFile(path, pkgPath string) ([]*Contract, error) {
 		switch cl.Kind {
 		case "requires":
 			cur.Requires = append(cur.Requires, cl)
-		case "ensures":
+		case "ensures", "lemma":
 			cur.Ensures = append(cur.Ensures, cl)
 		case "modifies":
 			cur.Modifies = append(cur.Modifies, cl)
@@ -148,7 +150,7 @@ func parseContractFile(path, pkgPath string) ([]*Contract, error) {
 		case "func":
 			cur = &Contract{Func: pkgPath + "." + strings.TrimSpace(rest), Loops: map[int][]*Clause{}, File: path, Nullable: map[string]bool{}, Outbuf: map[string]bool{}}
 			out = append(out, cur)
-		case "requires", "ensures", "modifies", "inputsize":
+		case "requires", "ensures", "modifies", "inputsize", "lemma":
 			if cur == nil {
 				return nil, fmt.Errorf("%s:%d: clause outside func block", path, ln+1)
 			}
@@ -265,7 +267,7 @@ func (cl *Clause) parse() error {
 		for _, p := range strings.Split(head, "+") {
 			cl.Props = append(cl.Props, p)
 		}
-	} else if cl.Kind == "ensures" || cl.Kind == "invariant" {
+	} else if cl.Kind == "ensures" || cl.Kind == "invariant" || cl.Kind == "lemma" {
 		return fmt.Errorf("clause needs a [label]: %s", cl.Text)
 	}
 	// strip trailing comment
